@@ -1,12 +1,12 @@
 (* C04 — Printing an expression and parsing it back preserves its meaning.
    `printable` is the class of trees inside the property's quantifier: '=' only along the left spine from the root; below it no '=',
    factorial operands are literals, variables are letters, and every constant satisfies the round-trip condition `const_text`
-   (its text is [-]run with run a number run that coerce reads back to the same number) - proved below for ALL integers; for
-   non-integer constants it is a hypothesis that the correspondence suite checks on the implementation (floats print with
-   finitely many decimals). *)
+   (its text is [-]run with run a number run that coerce reads back to the same number). That condition is PROVED for every constant
+   that has a text at all: all integers of any size and all numbers with at most 40 decimal places (C04_constants), so `printable`
+   is the purely structural predicate `shape` (C04_structural). *)
 From Coq Require Import List NArith ZArith QArith Bool Reals.
 From Mathy Require Import Num Expr Parser Printer Sem.
-From MathyProofs Require Import PrintTokens PrintGrammar PrintPhrase PrintParse PrintInt.
+From MathyProofs Require Import PrintTokens PrintGrammar PrintPhrase PrintParse PrintInt PrintDec.
 Import ListNotations.
 
 (* the text of a printable tree is accepted by the parser, and the re-parsed tree has the same value at EVERY assignment (defined
